@@ -160,7 +160,7 @@ def check_stream(acc, opens, case, frags, normalize, judge_source=True, cuts=Non
 
 SRC_CHOICES = [None, None, 'a.js', 'lib/b.js', '/abs/c.js', NotImplemented]
 TEXTS = ['a', 'foo', ';', '{', '}', ' ', '  ', '\n', '\r\n', '\r', 'x\n', 'x\ny', '"a\\\nb"', '/*c\n d*/', ',', '(',
-         ')', 'var', 'function', '\n  ', 'a\r\nb\rc', '']
+         ')', 'var', 'function', '\n  ', 'a\r\nb\rc', '', 'a\x0cb', '"x\x0by"', u'/*\x85*/ ', 'p\x1cq\nr\x0c']
 
 
 @st.composite
